@@ -382,8 +382,9 @@ def user_object_released(c, chk, ex):
     slots = set()
     for p in paths:
         for e in p.events:
-            if e.kind == 'store' and e.addr[0] == 'fld' and e.addr[3] in ('ptr', 'string') and e.val[0] == 'ld' and e.val[1][0] == 'alloca':
-                slots.add(e.val[1])
+            if e.kind == 'store' and e.addr[0] == 'fld' and e.addr[3] in ('ptr', 'string') and sym.object_of(e.addr)[0] != 'alloca' \
+                    and e.val[0] == 'ld' and sym.object_of(e.val[1])[0] == 'alloca':
+                slots.add(e.val[1])          # a local, or a member of a local record
     n = 0
     bad = None
     for p in paths:
